@@ -50,7 +50,7 @@ func alphabet() []op {
 	for _, n := range []string{"n1", "n2"} {
 		a = append(a, op{"addSMB", n, ""}, op{"addExt", n, "e1"}, op{"remove", n, ""})
 	}
-	a = append(a, op{"addExt", "n2", "e2"}, op{"addHTTP", "n1", ""}, op{"addHTTP", "n2", ""}, op{"addHTTPbusy", "n1", ""},
+	a = append(a, op{"addExt", "n2", "e2"}, op{"addHTTP", "n1", ""}, op{"addHTTP", "n2", ""}, op{"addHTTPbusy", "n1", ""}, op{"removeDBfail", "n1", ""},
 		op{"editHTTP", "n1", ""}, op{"remove", "nx", ""},
 		op{"svcUp", "s1", ""}, op{"svcUp", "s2", ""}, op{"svcDown", "s1", ""}, op{"svcDown", "s2", ""},
 		op{"addSvc", "n1", "s1"}, op{"addSvc", "n2", "s2"}, op{"addExC2", "n2", "s1"}, op{"addExC2", "n1", "s1"}, op{"addExC2", "n1", "s2"}, op{"addExC2x2", "x1", "s1"})
@@ -212,6 +212,21 @@ func (w *world) apply(o op) {
 		}
 		runtime.GOMAXPROCS(prev)
 		time.Sleep(100 * time.Millisecond) // let the start goroutine run to whatever end it has
+	case "removeDBfail":
+		// the operator removes an SMB listener while the database refuses the delete (a
+		// trigger installed through a second connection aborts it); nothing else of an SMB
+		// removal has side effects, so whatever the outcome, the three views must still agree
+		d, err := sql.Open("sqlite3", filepath.Join(w.ts.Root, "ts.db"))
+		if err == nil {
+			_, err = d.Exec("CREATE TRIGGER verif_fail BEFORE DELETE ON TS_Listeners BEGIN SELECT RAISE(ABORT, 'verif: injected fault'); END")
+		}
+		if err != nil {
+			w.panics = append(w.panics, "harness: cannot install the fault trigger: "+err.Error())
+			break
+		}
+		w.dispatch(L.Type, L.Remove, map[string]any{"Name": o.name})
+		d.Exec("DROP TRIGGER verif_fail")
+		d.Close()
 	case "addHTTPbusy":
 		if w.busy == nil {
 			l, err := net.Listen("tcp", "127.0.0.1:0")
@@ -306,6 +321,16 @@ func (w *world) enabled(maxRemoves int) []int {
 			}
 		case "addHTTPbusy":
 			if w.busy != nil {
+				continue
+			}
+		case "removeDBfail":
+			smb := false
+			for _, l := range w.ts.T.Listeners {
+				if l.Name == o.name && l.Type == handlers.LISTENER_PIVOT_SMB {
+					smb = true
+				}
+			}
+			if !smb {
 				continue
 			}
 		case "addHTTPremoveNow":
